@@ -194,8 +194,73 @@ fn e2e_strategy() -> impl Strategy<Value = crate::props::c04::Case> {
     })
 }
 
+/// The acknowledgement of the first target and the registration of the next target of the same operation on two REAL
+/// threads (in the server: a connection thread and the replication thread), started together, `rounds` times. Whatever
+/// the order, afterwards the operation is pending (the second target has not acknowledged) and the second target's
+/// acknowledgement releases it. No schedule is owned here: a round can only fail if the implementation has a window,
+/// so there are no false alarms; a miss is possible.
+#[derive(Clone, Debug, Serialize, Deserialize)]
+pub struct RaceCase {
+    pub rounds: u32,
+    /// the second thread starts this many spins late (moves the point where the two calls meet)
+    pub skew: u32,
+}
+
+pub fn run_race(ctx: &Ctx, case: &RaceCase) -> Outcome {
+    let dir = ctx.fresh_dir();
+    let node = Node::boot(&dir, "127.0.0.1:3017", 1);
+    let dbs = node.dbs.clone();
+    let mut fail = None;
+    let (n1, n2) = (NODES[0].to_string(), NODES[1].to_string());
+    for r in 0..case.rounds {
+        let op = 1_000_000 + r as u64;
+        dbs.register_pending_opp(op, "replicate d k -1 v".to_string(), &n1);
+        let barrier = std::sync::Arc::new(std::sync::Barrier::new(2));
+        let (d1, b1, a1) = (dbs.clone(), barrier.clone(), n1.clone());
+        let t1 = std::thread::spawn(move || {
+            b1.wait();
+            d1.acknowledge_pending_opp(op, &a1)
+        });
+        let (d2, b2, a2, skew) = (dbs.clone(), barrier.clone(), n2.clone(), case.skew);
+        let t2 = std::thread::spawn(move || {
+            b2.wait();
+            for _ in 0..skew {
+                std::hint::spin_loop();
+            }
+            d2.register_pending_opp(op, "replicate d k -1 v".to_string(), &a2);
+        });
+        let first = t1.join().unwrap_or(false);
+        let _ = t2.join();
+        let pending = dbs.get_pending_opp_copy(op).is_some();
+        if !first || !pending {
+            fail = Some(("C15|threads|operation-released-before-its-last-target-acknowledged".to_string(), format!("round {}: ack of the first target (returned {}) met the registration of the second: the operation is {} although {} has not acknowledged", r, first, if pending { "pending" } else { "NOT pending" }, n2)));
+            break;
+        }
+        let second = dbs.acknowledge_pending_opp(op, &n2);
+        if !second || dbs.get_pending_opp_copy(op).is_some() || pending_count(&node) != Some(0) {
+            fail = Some(("C15|threads|operation-not-released-by-its-last-acknowledgement".to_string(), format!("round {}: after the second target's acknowledgement (returned {}) pending_ops = {:?}", r, second, pending_count(&node))));
+            break;
+        }
+    }
+    drop(node);
+    ctx.drop_dir(&dir);
+    let mut out = Outcome::ok(true);
+    out.classes.push("ack-meets-registration-on-real-threads");
+    out.counters.push(("thread_rounds", case.rounds as u64));
+    out.fail = fail;
+    out
+}
+
 pub fn run(ctx: &Ctx, rep: &mut Report) {
     crate::interpose::virtual_clock(true);
+    {
+        let rounds = ctx.amount(400, 4000);
+        let cases = (0..8u32).map(move |i| RaceCase { rounds, skew: i * 40 });
+        enumerate(ctx, rep, "ack-meets-registration-on-real-threads", cases, |c| run_race(ctx, c));
+        if !rep.failures.is_empty() {
+            return;
+        }
+    }
     let ne = ctx.amount(1200, 30_000);
     crate::report::explore_with(ctx, rep, "end-to-end-with-elections", ne, 100, e2e_strategy(), |c| run_e2e(ctx, c));
     if !rep.failures.is_empty() {
@@ -215,6 +280,9 @@ pub fn run(ctx: &Ctx, rep: &mut Report) {
 }
 
 pub fn replay(ctx: &Ctx, _engine: &str, case: &J) -> Result<Option<(String, String)>, String> {
+    if _engine == "ack-meets-registration-on-real-threads" {
+        return replay_guarded::<RaceCase>(ctx, case, |c| run_race(ctx, c));
+    }
     if _engine == "end-to-end-with-elections" {
         return replay_guarded::<crate::props::c04::Case>(ctx, case, |c| run_e2e(ctx, c));
     }
